@@ -96,7 +96,7 @@ func TestCheck(t *testing.T) {
 	}
 	c := &strace.Campaign{R: r, Stream: "c06-" + r.Stage, Judge: judge(r), Params: pset}
 	switch r.Stage {
-	case "race":
+	case "race", "asan":
 		c.Roots, c.Sweeps, c.SweepK = r.N(12, 120), r.N(16, 160), r.N(150, 600)
 	case "spsa":
 		c.Roots, c.Sweeps, c.SweepK = r.N(40, 300), r.N(48, 300), r.N(300, 1500)
